@@ -230,6 +230,22 @@ func (k *kase) creditsPerKey(rpc string, calls []rhpx.Call, b0, b1 balances) {
 			m[d.Account].Add(m[d.Account], d.Amount.Big())
 		}
 	}
+	// an account-paid operation that ran on another stream in the middle of the RPC
+	spent := map[proto4.Account]*big.Int{}
+	for _, c := range calls {
+		if c.Kind == "debit" && c.Err == nil {
+			if spent[c.Account] == nil {
+				spent[c.Account] = new(big.Int)
+			}
+			spent[c.Account].Add(spent[c.Account], c.Usage.RenterCost().Big())
+		}
+	}
+	for key, v := range spent {
+		if wantA[key] == nil {
+			wantA[key] = new(big.Int)
+		}
+		wantA[key].Sub(wantA[key], v)
+	}
 	cmp := func(what string, before, after, want map[proto4.Account]*big.Int) {
 		for key, v0 := range before {
 			gain := new(big.Int).Sub(after[key], v0)
@@ -238,7 +254,7 @@ func (k *kase) creditsPerKey(rpc string, calls []rhpx.Call, b0, b1 balances) {
 				w = new(big.Int)
 			}
 			if gain.Cmp(w) != 0 {
-				k.c.Oracle("credit-per-"+what+":"+rpc, "%s %d gained %v but the deposits naming it in the persisted batch add up to %v", what, rhpx.KeyID(types.PublicKey(key)), gain, w)
+				k.c.Oracle("credit-per-"+what+":"+rpc, "%s %d gained %v but the deposits naming it in the persisted batch (less what it spent meanwhile) add up to %v", what, rhpx.KeyID(types.PublicKey(key)), gain, w)
 			}
 		}
 	}
@@ -725,6 +741,67 @@ func params(idx int) func(w *worker) {
 	}
 }
 
+
+// interleaved: an account-paid operation on another stream lands between the host's replenish
+// quote and the renter's signature.  The revision both parties sign pays the quoted sum, so the
+// quoted sum is what has to be credited, whatever the balances are by then.
+func interleaved(idx int) func(w *worker) {
+	return func(w *worker) {
+		w.ensure(2)
+		cid := w.cid
+		k := w.begin(fmt.Sprintf("interleaved-%d", idx))
+		prices := rhpx.DefaultPrices()
+		rc := prices.EgressPrice.Mul64(4096)
+		// the account can pay for the interleaved operations out of its own balance
+		pre, _ := w.rig.EC.AccountBalances([]proto4.Account{rhpx.Acct(acctA), rhpx.Acct(acctB)})
+		if pre[0].Cmp(types.Siacoins(2)) < 0 || pre[1].Cmp(types.Siacoins(2)) < 0 {
+			k.attempt("fund", "good", cid, true, types.Siacoins(4), func() rhpx.Result {
+				return w.s.Fund(rhpx.FundArgs{Cid: cid, Deposits: []rhpx.Deposit{{Account: acctA, Amount: types.Siacoins(2)}, {Account: acctB, Amount: types.Siacoins(2)}}, Sig: rhpx.Honest, CurIDs: w.cur})
+			})
+			k.observe()
+		}
+		bals, _ := w.rig.EC.AccountBalances([]proto4.Account{rhpx.Acct(acctA), rhpx.Acct(acctB)})
+		target := bals[0].Add(types.Siacoins(3))
+		if bals[1].Cmp(target) >= 0 {
+			target = bals[1].Add(types.Siacoins(3))
+		}
+		due := target.Sub(bals[0]).Add(target.Sub(bals[1]))
+		var mid []rhpx.Result
+		tok := w.s.GoodToken(acctA)
+		between := func() {
+			switch idx % 4 {
+			case 0:
+				mid = append(mid, w.s.Read(rhpx.ReadArgs{Prices: w.s.GoodPrices(), Token: tok, Root: 1, Offset: 0, Len: 64}))
+			case 1:
+				mid = append(mid, w.s.Write(rhpx.WriteArgs{Prices: w.s.GoodPrices(), Token: tok, Len: 64, Sector: 2}))
+			case 2:
+				mid = append(mid, w.s.Verify(rhpx.VerifyArgs{Prices: w.s.GoodPrices(), Token: tok, Root: 1, Leaf: 3}))
+			case 3: // several
+				mid = append(mid, w.s.Read(rhpx.ReadArgs{Prices: w.s.GoodPrices(), Token: tok, Root: 1, Offset: 64, Len: 128}))
+				mid = append(mid, w.s.Read(rhpx.ReadArgs{Prices: w.s.GoodPrices(), Token: w.s.GoodToken(acctB), Root: 2, Offset: 0, Len: 64}))
+			}
+		}
+		_ = rc
+		second := rhpx.Honest
+		if idx >= 4 && idx < 8 {
+			second = rhpx.BadS // the RPC fails after the interleaved operation: only that operation counts
+		}
+		res := k.attempt("replenish", fmt.Sprintf("interleaved-%d", idx), cid, second.Kind == "h", due, func() rhpx.Result {
+			return w.s.Replenish(rhpx.ReplArgs{Cid: cid, Accounts: []int{acctA, acctB}, Target: target, Chal: rhpx.Honest, Second: second, CurIDs: w.cur, Between: between})
+		})
+		// the model is sequential: the replenish (its deposits fixed at the quote), then what ran meanwhile
+		for _, m := range mid {
+			k.c.Op(m.Op, m.Impl)
+			if m.Cls != "ok" {
+				k.c.Oracle("interleaved-operation-refused", "the operation on the other stream was refused: %s", m.Impl)
+			}
+		}
+		_ = res
+		k.observe()
+		k.done(true, "kind:interleaved")
+	}
+}
+
 // history: a random sequence of all revising RPCs, each well-formed or with one corrupted field.
 func history(idx int, rng *vh.RNG, steps int) func(w *worker) {
 	return func(w *worker) {
@@ -1027,6 +1104,9 @@ func Run(r *vh.Run) {
 	}
 	for i := 0; i <= 6; i++ {
 		jobs = append(jobs, params(i))
+	}
+	for i := 0; i < 8; i++ {
+		jobs = append(jobs, interleaved(i))
 	}
 	nh := r.Pick(3000, 40000)
 	steps := r.Pick(25, 50)
